@@ -129,6 +129,10 @@ CASES = {
     "sum_axis0": (lambda n, a: a.sum(axis=0), [POS], False),
     "sum_axis_tuple": (lambda n, a: a.sum(axis=(0, 1)), [POS], False),
     "cumsum": (lambda n, a: n.cumsum(a, axis=1), [POS], False),
+    "argmax_first_nonzero": (lambda n, a: n.zeros(1) + n.argmax(a != 0.0), [np.array([0.0, 0.0, 2.5, 0.0, 1.0])], False),
+    "argmax_all_zero": (lambda n, a: n.zeros(1) + n.argmax(a != 0.0), [np.zeros(3)], False),
+    "bool_arith": (lambda n, a: 1.0 - (a > 0.0), [POS - 1.0], False),
+    "bool_mask_times_values": (lambda n, a: (a > 0.0) * a + (a <= 0.0) * 2.5, [POS - 1.0], False),
     "nan_to_num": (lambda n, a: n.nan_to_num(a), [A2], False),
     "nan_to_num_inplace": (lambda n, a: _n2n(n, a), [A2], False),
     "gradient": (lambda n, a: n.gradient(a), [np.array([2000.0, 2001.0, 2003.0, 2006.5, 2010.0])], False),
